@@ -115,4 +115,28 @@ theorem serve_append (qs1 qs2 : List Req) : ∀ (s s1 s2 : Server) (rs1 rs2 : Li
     have := ih sa s1 s2 rs rs2 hb h2
     exact serve_cons_ok s sa s2 q (qs ++ qs2) r (rs ++ rs2) ha this
 
+/-- **frame over a session**: a session of `n` requests changes at most `n` collections — there is a
+    list of at most `n` names outside of which every collection is what it was before the session -/
+theorem session_frame (qs : List Req) : ∀ (s s' : Server) (rs : List Resp), serve s qs = .ok (s', rs) →
+    ∃ touched : List Bytes, touched.length ≤ qs.length ∧ ∀ n, n ∉ touched → lookup s' n = lookup s n := by
+  induction qs with
+  | nil => intro s s' rs h; simp only [serve] at h; cases h; exact ⟨[], by simp, fun _ _ => rfl⟩
+  | cons q qs ih =>
+    intro s s' rs0 h
+    obtain ⟨s1, r, rs, h1, h2, rfl⟩ := serve_cons_inv s s' q qs rs0 h
+    obtain ⟨s2, r2, h3, eff, _⟩ := handle_spec s q.method q.path q.body
+    rw [h1] at h3
+    cases h3
+    obtain ⟨t, hl, ht⟩ := ih s1 s' rs h2
+    cases eff with
+    | same => exact ⟨t, by simp; omega, ht⟩
+    | put name c =>
+      refine ⟨name :: t, by simp; omega, fun n hn => ?_⟩
+      simp only [List.mem_cons, not_or] at hn
+      rw [ht n hn.2, lookup_put_ne s name n c hn.1]
+    | drop name =>
+      refine ⟨name :: t, by simp; omega, fun n hn => ?_⟩
+      simp only [List.mem_cons, not_or] at hn
+      rw [ht n hn.2, lookup_remove_ne s name n hn.1]
+
 end Syzgy.Rest
